@@ -5,16 +5,22 @@
 (* given default rule, plus what was observed: the load result, the        *)
 (* mechanisms executed for a request on which everything succeeds and for  *)
 (* one on which every authenticator fails, and whether a failed match of   *)
-(* the rule backtracked to a less specific rule.                           *)
+(* the rule backtracked to a less specific rule; and the answers of the    *)
+(* service's admission webhook (module Admission) for rule sets made of    *)
+(* the rule: alone under the own class, alone under another class, and     *)
+(* after a valid rule together with a copy of itself.  C14 speaks about    *)
+(* loading only: what the webhook answers differently from the             *)
+(* specification is reported as a divergence of the model (div), not as a  *)
+(* violation of the property (bad).                                        *)
 (***************************************************************************)
-EXTENDS RuleFactory, Json, IOUtils, TLC, SequencesExt
+EXTENDS RuleFactory, Admission, Json, IOUtils, TLC, SequencesExt
 
 Trace == ndJsonDeserialize(IOEnv.VERIF_TRACE)
 OutFile == IOEnv.VERIF_OUT
 
-VARIABLES l, bad, nontrivial
+VARIABLES l, bad, nontrivial, div
 
-vars == <<l, bad, nontrivial>>
+vars == <<l, bad, nontrivial, div>>
 
 Names(steps) == [i \in 1..Len(steps) |-> steps[i].n]
 
@@ -32,24 +38,33 @@ Violations(c) ==
              \cup (IF o.bt # EffectiveBt(c.def, c.rule) THEN {"backtracking-setting-differs"} ELSE {})
              \cup (IF ~o.positive_ok THEN {"valid-pipeline-not-positive"} ELSE {})
 
+AdmissionViolations(c) ==
+  LET valid == Valid(c.def, c.rule, c.mode)
+      a == c.obs.admit
+  IN AnswerProblems(a.own, "k", "k", <<valid>>, "admission")
+     \cup AnswerProblems(a.other, "k", "other", <<valid>>, "admission-other-class")
+     \cup AnswerProblems(a.trio, "k", "k", <<TRUE, valid, valid>>, "admission-of-three")
+
 NonTrivial(c) == c.def.present \/ ~Valid(c.def, c.rule, c.mode)
 
-Init == l = 1 /\ bad = {} /\ nontrivial = 0
+Init == l = 1 /\ bad = {} /\ nontrivial = 0 /\ div = {}
 
 Next ==
   /\ l <= Len(Trace)
-  /\ LET c == Trace[l] v == Violations(c) IN
+  /\ LET c == Trace[l] v == Violations(c) a == AdmissionViolations(c) IN
        /\ bad' = IF v = {} THEN bad
                  ELSE bad \cup {[line |-> l, id |-> c.id, reasons |-> SetToSeq(v),
                                  valid |-> Valid(c.def, c.rule, c.mode), bt |-> EffectiveBt(c.def, c.rule)]}
        /\ nontrivial' = IF NonTrivial(c) THEN nontrivial + 1 ELSE nontrivial
+       /\ div' = IF a = {} THEN div ELSE div \cup {[line |-> l, id |-> c.id, reasons |-> SetToSeq(a)]}
   /\ l' = l + 1
 
 Spec == Init /\ [][Next]_vars
 
-Export == IF l = Len(Trace) + 1 THEN TLCSet(1, bad) /\ TLCSet(2, nontrivial) ELSE TRUE
+Export == IF l = Len(Trace) + 1 THEN TLCSet(1, bad) /\ TLCSet(2, nontrivial) /\ TLCSet(3, div) ELSE TRUE
 
 Done ==
   /\ TLCGet("stats").diameter - 1 = Len(Trace)
-  /\ JsonSerialize(OutFile, [lines |-> Len(Trace), nontrivial |-> TLCGet(2), bad |-> SetToSeq(TLCGet(1))])
+  /\ JsonSerialize(OutFile, [lines |-> Len(Trace), nontrivial |-> TLCGet(2), bad |-> SetToSeq(TLCGet(1)),
+                             diverged |-> SetToSeq(TLCGet(3))])
 =============================================================================
